@@ -17,7 +17,7 @@ def one(args):
     from sa.selftest import apply_unified_diff
     from sa.report import load_known
     ov = apply_unified_diff('/repo', open(patch, encoding='utf8').read())
-    if ov is None:
+    if not ov:
         return prop, ['DOES-NOT-APPLY']
     ctx, err = run_property(prop, 'quick', '/repo', overlay=ov, write=False)
     known = {(e['property'], e['rule'], e['construct']) for e in load_known() if e.get('status') == 'finding'}
